@@ -380,6 +380,15 @@ def rx_5_6(ctx, rep):
             bom_first = False
     rep.ob('RX-5', UTILS, 'python_bytes_to_unicode.detect_encoding', 'BOM test before declaration search',
            bom_first is True, 'the BOM is no longer tested before the declaration search')
+    # the codec names the detector can return on its own: none of them may swallow the BOM (the tokenizer keeps U+FEFF
+    # as a prefix part; with a BOM-consuming codec the tree no longer reproduces the decoded source)
+    swallowing = {'utf-8-sig', 'utf_8_sig', 'utf8-sig', 'utf-16', 'utf_16', 'utf-32', 'utf_32', 'u16', 'u32'}
+    consts = [n.value.value for n in walk_own(f.node) if isinstance(n, ast.Return) and isinstance(n.value, ast.Constant)
+              and isinstance(n.value.value, str)]
+    bad_codecs = sorted(c for c in consts if c.lower() in swallowing)
+    rep.ob('RX-5', UTILS, 'python_bytes_to_unicode.detect_encoding', 'codec names returned as constants: %s' % sorted(set(consts)),
+           not bad_codecs, 'the codec %s removes the byte order mark while decoding: the text handed to the tokenizer is '
+           'shorter than the decoded source' % bad_codecs)
 
 
 # ---------------------------------------------------------------------------
